@@ -482,6 +482,24 @@ def _in_body(try_node, x):
     return any(x is y for st in try_node.body for y in ast.walk(st))
 
 
+def handlers_wake_through_the_loop(chk: Check):
+    """The watchdog handlers run on the observer thread: a dependency re-check made there sets the job's asyncio event from a foreign thread,
+    which does not wake the event loop up.  Every re-check goes through aio_notify (call_soon_threadsafe)"""
+    tree = chk.tree
+    n = 0
+    for c in tree.classes.values():
+        if c.module.is_test() or not any(b.split(".")[-1] == "FileSystemEventHandler" for b in tree.base_names(c)):
+            continue
+        for name, f in c.methods.items():
+            if not name.startswith("on_"):
+                continue
+            n += 1
+            direct = [x for x in fn_calls(f.node) if tail(x) == "check" and "depend" in src(x.func).lower()]
+            chk.require(not direct, chk.fkey(f, "re-check through the event loop"), f"`{f.qual}` calls `{src(direct[0]) if direct else ''}` on the observer thread: the job becomes READY but its "
+                        "loop is not woken up, so it is launched only at the next unrelated event", chk.loc(f.module, direct[0] if direct else f.node))
+    chk.min_instances(n, 3, "watchdog handler methods")
+
+
 def event_loops_not_closed(chk: Check):
     tree = chk.tree
     # aio_notify posts to the loop of *every* dependent ever registered (also of finished experiments): the posting call must not be able to
@@ -523,6 +541,7 @@ def r5_wakeup_path(chk: Check):
             ok = ok and not extra
         chk.require(ok, chk.fkey(f, "notify condition"), "on_deleted notifies under extra conditions", chk.loc(f.module, f.node))
     event_loops_not_closed(chk)
+    handlers_wake_through_the_loop(chk)
     # Dependency.check -> dependencychanged -> _readyEvent.set
     ck = tree.func("scheduler.dependencies", "Dependency.check")
     chk.require(any(tail(c) == "dependencychanged" for c in fn_calls(ck.node)), chk.fkey(ck, "check -> dependencychanged"), "Dependency.check must call the target's dependencychanged", chk.loc(ck.module, ck.node))
